@@ -8,20 +8,21 @@
 #define RV __CPROVER_return_value
 #define OLD(e) __CPROVER_old(e)
 #define WSF_ALLOC_GHOSTS g_alloc_ok, g_free_calls
-#define WSF_RAND_GHOSTS g_rand_calls, g_rand_last
-#define WSF_FIN_GHOSTS g_fin_calls, g_fin_last, g_fin_last_rv, g_fin_last_count
-#define WSF_CTL_GHOSTS g_ctl_calls, g_ctl_op, g_ctl_len
-#define WSF_CLOSE_GHOSTS g_close_calls, g_close_code
-#define WSF_WR_GHOSTS g_wr_calls, g_wr_aio
-#define WSF_RD_GHOSTS g_rd_calls, g_rd_aio
-#define WSF_SNAP_GHOSTS g_finish_calls, g_fin_rxq, g_fin_inmsg, g_fin_flen, g_fin_fbuf, g_fin_fb
-#define WSF_MSG_GHOSTS g_msg_alloc_calls, g_msg_alloc_sz, g_msg_last
+#define WSF_RAND_GHOSTS g_rn
+#define WSF_FIN_GHOSTS g_fn
+#define WSF_CTL_GHOSTS g_cl
+#define WSF_CLOSE_GHOSTS g_cl
+#define WSF_TX_GHOSTS g_tx
+#define WSF_RD_GHOSTS g_rd
+#define WSF_SNAP_GHOSTS g_sn
+#define WSF_MSG_GHOSTS g_ms
 #define WSF_IOV_OF(a) (a).a_nio, __CPROVER_object_upto(&(a).a_iov[0], sizeof((a).a_iov))
 #define WSF_LISTS_PRE(w) (g_recvq_addr == &(w)->recvq && g_rxq_addr == &(w)->rxq && g_txq_addr == &(w)->txq)
 #define WSF_BE32(p) (((uint32_t) (p)[0] << 24) | ((uint32_t) (p)[1] << 16) | ((uint32_t) (p)[2] << 8) | (uint32_t) (p)[3])
 #define WSF_FQ_SAME(q) ((q).n == OLD((q).n) && ((q).n < 1 || (q).item[0] == OLD((q).item[0])) && ((q).n < 2 || (q).item[1] == OLD((q).item[1])) && ((q).n < 3 || (q).item[2] == OLD((q).item[2])))
-/* the members of the transmit queue are real frames (is_fresh: distinct objects) */
-#define WSF_TXQ_PRE ((g_txq.n < 1 || __CPROVER_is_fresh(g_txq.item[0], sizeof(ws_frame))) && (g_txq.n < 2 || __CPROVER_is_fresh(g_txq.item[1], sizeof(ws_frame))) && (g_txq.n < 3 || __CPROVER_is_fresh(g_txq.item[2], sizeof(ws_frame))))
+/* transmit queue model: n == 0 <=> no head */
+#define WSF_TXQ_OK ((g_txq.n == 0) == (g_txq.head == NULL))
+#define WSF_TXQ_SAME (g_txq.n == OLD(g_txq.n) && g_txq.head == OLD(g_txq.head))
 /* the ghost pair (g_k, g_b) speaks about the buffer handed to ws_apply_mask in
  * mode WSF_EQ_APPLY (per unit: the mode of the caller under contract) */
 #ifndef WSF_EQ_APPLY
@@ -85,29 +86,33 @@ __CPROVER_ensures((RV != 0 || ws->server) ==> g_rand_calls == OLD(g_rand_calls))
 #define CL_SENT (CL_DO && g_alloc_ok != OLD(g_alloc_ok) && g_aio_start_ok)
 static void ws_close(nni_ws *ws, uint16_t code)
 __CPROVER_requires(__CPROVER_is_fresh(ws, sizeof(*ws)) && WSF_LISTS_PRE(ws) && WSF_Q_OK(g_recvq))
-__CPROVER_requires(ws->closed || !ws->ready || (g_txq.n < WSF_K && WSF_TXQ_PRE))
+__CPROVER_requires(WSF_TXQ_OK)
 /* ghost equation: g_b is byte g_k of the big-endian status code */
 __CPROVER_requires(g_eq == WSF_EQ_CTL ==> ((g_k == 0 ==> g_b == (uint8_t) (code >> 8)) && (g_k == 1 ==> g_b == (uint8_t) code)))
 __CPROVER_assigns(g_recvq, WSF_FIN_GHOSTS, WSF_CLOSE_GHOSTS;
-	!ws->closed: g_aio_close_calls;
-	!ws->closed && ws->ready: ws->closed, ws->wclose, g_aio_reset_calls, WSF_ALLOC_GHOSTS, WSF_RAND_GHOSTS, WSF_CTL_GHOSTS, g_start_calls, g_txq, ws->txframe, WSF_IOV_OF(ws->txaio), WSF_WR_GHOSTS, g_io_http)
-__CPROVER_ensures(g_close_calls == OLD(g_close_calls) + 1 && g_close_code == code)
+	!ws->closed: WSF_TX_GHOSTS;
+	!ws->closed && ws->ready: ws->closed, ws->wclose, WSF_ALLOC_GHOSTS, WSF_RAND_GHOSTS, ws->txframe, WSF_IOV_OF(ws->txaio))
+/* not (established and not yet closing): no close frame is built */
+__CPROVER_ensures(!CL_DO ==> (g_ctl_calls == OLD(g_ctl_calls) && g_ctl_op == OLD(g_ctl_op) && g_ctl_len == OLD(g_ctl_len)))
+__CPROVER_ensures(g_close_calls == OLD(g_close_calls) + 1 && g_close_code == code && WSF_TXQ_OK && WSF_Q_OK(g_recvq))
 /* every waiting receiver is refused, once each */
 __CPROVER_ensures(g_recvq.n == 0 && g_fin_calls == OLD(g_fin_calls) + OLD(g_recvq.n) + (CL_NOMEM ? 1 : 0))
 __CPROVER_ensures((OLD(g_recvq.n) > 0 && !CL_NOMEM) ==> g_fin_last_rv == NNG_ECLOSED)
 /* before the handshake is complete there is nothing to say to the peer: only the negotiation is aborted */
-__CPROVER_ensures((!OLD(ws->closed) && !ws->ready) ==> (!ws->closed && g_aio_close_calls == OLD(g_aio_close_calls) + 2))
+__CPROVER_ensures((!OLD(ws->closed) && !ws->ready) ==> (!ws->closed && g_aio_close_calls == OLD(g_aio_close_calls) + 2 && WSF_TXQ_SAME && g_wr_calls == OLD(g_wr_calls)))
 /* established and not yet closing: closing now, and ONE close frame is built */
 __CPROVER_ensures(CL_DO ==> (ws->closed && g_aio_close_calls == OLD(g_aio_close_calls) + 2 && g_ctl_calls == OLD(g_ctl_calls) + 1 && g_ctl_op == WS_OP_CLOSE && g_ctl_len == 2))
-__CPROVER_ensures(CL_NOMEM ==> (!ws->wclose && g_fin_last == &ws->closeaio && g_fin_last_rv == NNG_ENOMEM && WSF_FQ_SAME(g_txq) && g_wr_calls == OLD(g_wr_calls) && g_free_calls == OLD(g_free_calls)))
-__CPROVER_ensures(CL_REFUSED ==> (!ws->wclose && g_free_calls == OLD(g_free_calls) + 1 && WSF_FQ_SAME(g_txq) && g_wr_calls == OLD(g_wr_calls)))
+/* at most one allocation: the close frame */
+__CPROVER_ensures(g_alloc_ok == OLD(g_alloc_ok) || (CL_DO && g_alloc_ok == OLD(g_alloc_ok) + 1))
+__CPROVER_ensures(CL_NOMEM ==> (!ws->wclose && g_fin_last == &ws->closeaio && g_fin_last_rv == NNG_ENOMEM && WSF_TXQ_SAME && g_wr_calls == OLD(g_wr_calls) && g_free_calls == OLD(g_free_calls)))
+__CPROVER_ensures(CL_REFUSED ==> (!ws->wclose && g_free_calls == OLD(g_free_calls) + 1 && WSF_TXQ_SAME && g_wr_calls == OLD(g_wr_calls)))
 __CPROVER_ensures(CL_SENT ==> (ws->wclose && g_start_calls == OLD(g_start_calls) + 1 && g_free_calls == OLD(g_free_calls)))
 #ifndef WSF_CLOSE_SUMMARY /* units that REPLACE ws_close use the contract without these three clauses (a weakening of the enforced text) */
 /* transmitter idle: the close frame goes out now (header, then the 2 payload bytes) */
-__CPROVER_ensures((CL_SENT && OLD(ws->txframe) == NULL) ==> (__CPROVER_is_fresh(ws->txframe, sizeof(ws_frame)) && WSF_IS_CLOSE_FRAME(ws->txframe, ws) && WSF_FQ_SAME(g_txq) && g_wr_calls == OLD(g_wr_calls) + 1 && g_wr_aio == &ws->txaio && g_io_http == ws->http))
+__CPROVER_ensures((CL_SENT && OLD(ws->txframe) == NULL) ==> (__CPROVER_is_fresh(ws->txframe, sizeof(ws_frame)) && WSF_IS_CLOSE_FRAME(ws->txframe, ws) && WSF_TXQ_SAME && g_wr_calls == OLD(g_wr_calls) + 1 && g_wr_aio == &ws->txaio && g_wr_http == ws->http))
 __CPROVER_ensures((CL_SENT && OLD(ws->txframe) == NULL) ==> (ws->txaio.a_nio == 2 && ws->txaio.a_iov[0].iov_buf == (void *) &ws->txframe->head[0] && ws->txaio.a_iov[0].iov_len == ws->txframe->hlen && ws->txaio.a_iov[1].iov_buf == (void *) &ws->txframe->sdata[0] && ws->txaio.a_iov[1].iov_len == 2))
 /* transmitter busy: the close frame is next in line (ahead of everything queued) */
-__CPROVER_ensures((CL_SENT && OLD(ws->txframe) != NULL) ==> (__CPROVER_is_fresh(g_txq.item[0], sizeof(ws_frame)) && WSF_IS_CLOSE_FRAME(g_txq.item[0], ws) && g_txq.n == OLD(g_txq.n) + 1 && g_txq.item[1] == OLD(g_txq.item[0]) && g_txq.item[2] == OLD(g_txq.item[1]) && ws->txframe == OLD(ws->txframe) && g_wr_calls == OLD(g_wr_calls)))
+__CPROVER_ensures((CL_SENT && OLD(ws->txframe) != NULL) ==> (__CPROVER_is_fresh(g_txq.head, sizeof(ws_frame)) && WSF_IS_CLOSE_FRAME(g_txq.head, ws) && g_txq.n == OLD(g_txq.n) + 1 && g_txq.next == OLD(g_txq.head) && ws->txframe == OLD(ws->txframe) && g_wr_calls == OLD(g_wr_calls)))
 #endif
 ;
 
@@ -117,15 +122,15 @@ __CPROVER_ensures((CL_SENT && OLD(ws->txframe) != NULL) ==> (__CPROVER_is_fresh(
 #define SR_IDLE (OLD(ws->rxframe) != NULL || OLD(ws->closed) || (OLD(g_recvq.n) == 0 && OLD(g_rxq.n) > 0))
 static void ws_start_read(nni_ws *ws)
 __CPROVER_requires(__CPROVER_is_fresh(ws, sizeof(*ws)) && WSF_LISTS_PRE(ws) && WSF_Q_OK(g_recvq))
-__CPROVER_requires(ws->ready && (ws->closed || (g_txq.n < WSF_K && WSF_TXQ_PRE)) && g_eq != WSF_EQ_CTL)
+__CPROVER_requires(ws->ready && WSF_TXQ_OK && g_eq != WSF_EQ_CTL)
 __CPROVER_assigns(ws->rxframe == NULL && !ws->closed && !(g_recvq.n == 0 && g_rxq.n > 0):
 	ws->rxframe, WSF_IOV_OF(ws->rxaio), WSF_RD_GHOSTS,
-	g_recvq, WSF_FIN_GHOSTS, WSF_CLOSE_GHOSTS, g_aio_close_calls,
-	ws->closed, ws->wclose, g_aio_reset_calls, WSF_ALLOC_GHOSTS, WSF_RAND_GHOSTS, WSF_CTL_GHOSTS, g_start_calls, g_txq, ws->txframe, WSF_IOV_OF(ws->txaio), WSF_WR_GHOSTS, g_io_http)
+	g_recvq, WSF_FIN_GHOSTS, WSF_CLOSE_GHOSTS, WSF_TX_GHOSTS,
+	ws->closed, ws->wclose, WSF_ALLOC_GHOSTS, WSF_RAND_GHOSTS, ws->txframe, WSF_IOV_OF(ws->txaio))
 /* a read is already in flight, the connection is closing, or a complete frame waits with nobody to take it: nothing happens (assigns clause) */
 /* otherwise a read of exactly the first 2 header bytes into a new frame is armed */
 __CPROVER_ensures((!SR_IDLE && ws->rxframe != NULL) ==> (__CPROVER_is_fresh(ws->rxframe, sizeof(ws_frame)) && WSF_HEAD_INV(ws->rxframe) && ws->rxaio.a_nio == 1 && ws->rxaio.a_iov[0].iov_buf == (void *) &ws->rxframe->head[0] && ws->rxaio.a_iov[0].iov_len == 2))
-__CPROVER_ensures((!SR_IDLE && ws->rxframe != NULL) ==> (g_rd_calls == OLD(g_rd_calls) + 1 && g_rd_aio == &ws->rxaio && g_io_http == ws->http && g_close_calls == OLD(g_close_calls) && g_recvq.n == OLD(g_recvq.n) && g_fin_calls == OLD(g_fin_calls) && !ws->closed && g_ctl_calls == OLD(g_ctl_calls)))
+__CPROVER_ensures((!SR_IDLE && ws->rxframe != NULL) ==> (g_rd_calls == OLD(g_rd_calls) + 1 && g_rd_aio == &ws->rxaio && g_rd_http == ws->http && g_close_calls == OLD(g_close_calls) && g_recvq.n == OLD(g_recvq.n) && g_fin_calls == OLD(g_fin_calls) && !ws->closed && g_ctl_calls == OLD(g_ctl_calls) && g_ctl_op == OLD(g_ctl_op) && g_ctl_len == OLD(g_ctl_len)))
 /* ... unless there is no memory for it: the connection is failed (internal error), the receivers are told */
 __CPROVER_ensures((!SR_IDLE && ws->rxframe == NULL) ==> (g_rd_calls == OLD(g_rd_calls) && g_close_calls == OLD(g_close_calls) + 1 && g_close_code == WS_ST_INTERNAL && ws->closed && g_recvq.n == 0 && g_fin_calls >= OLD(g_fin_calls) + OLD(g_recvq.n)))
 ;
@@ -144,18 +149,21 @@ __CPROVER_ensures((!SR_IDLE && ws->rxframe == NULL) ==> (g_rd_calls == OLD(g_rd_
 	g_rxq.n >= 3 && g_rxq.n <= WSF_K: g_rxq.item[2]->len, g_rxq.item[2]->buf
 /* (the last line: what failing the connection on an out-of-memory condition touches, see ws_close) */
 #define WSF_FINISH_ASSIGNS g_rxq, g_recvq, WSF_FIN_GHOSTS, WSF_ALLOC_GHOSTS, WSF_MSG_GHOSTS, WSF_CLOSE_GHOSTS, \
-	ws->closed, ws->wclose, g_aio_close_calls, g_aio_reset_calls, WSF_RAND_GHOSTS, WSF_CTL_GHOSTS, g_start_calls, g_txq, ws->txframe, WSF_IOV_OF(ws->txaio), WSF_WR_GHOSTS, g_io_http; WSF_RXQ_ITEM_FIELDS
+	ws->closed, ws->wclose, WSF_RAND_GHOSTS, WSF_TX_GHOSTS, ws->txframe, WSF_IOV_OF(ws->txaio); WSF_RXQ_ITEM_FIELDS
+#define WSF_FINISH_WF (WSF_TXQ_OK && WSF_Q_OK(g_recvq) && g_rxq.n <= OLD(g_rxq.n))
+/* (ws->ready: ws_close then really starts closing) */
 #define WSF_FINISH_QUIET (g_close_calls == OLD(g_close_calls) && g_ctl_calls == OLD(g_ctl_calls) && g_ctl_op == OLD(g_ctl_op) && g_ctl_len == OLD(g_ctl_len) && ws->closed == OLD(ws->closed))
 #ifndef WSF_FINISH_FULL
 static void ws_read_finish_msg(nni_ws *ws)
+__CPROVER_requires(ws->ready)
 __CPROVER_assigns(WSF_FINISH_ASSIGNS)
 /* fails the connection only when there is no memory for the message (internal error) */
-__CPROVER_ensures(WSF_FINISH_QUIET || (g_close_calls == OLD(g_close_calls) + 1 && g_close_code == WS_ST_INTERNAL))
+__CPROVER_ensures(WSF_FINISH_WF && (WSF_FINISH_QUIET || (g_close_calls == OLD(g_close_calls) + 1 && g_close_code == WS_ST_INTERNAL && ws->closed)))
 ;
 #endif
 static void ws_read_finish_str(nni_ws *ws)
 __CPROVER_assigns(WSF_FINISH_ASSIGNS)
-__CPROVER_ensures(WSF_FINISH_QUIET)
+__CPROVER_ensures(WSF_FINISH_WF && WSF_FINISH_QUIET)
 ;
 
 /* ---- 1. receive: header decode and rule enforcement (RFC 6455 5.2-5.5) --
@@ -208,7 +216,8 @@ __CPROVER_ensures(((G) && SC_BAD(X, FINB, LEN)) ==> FAILED(WS_ST_PROTO)) \
 __CPROVER_ensures(((G) && !SC_BAD(X, FINB, LEN) && !WS_OP_IS_CTL(SC_OPC(X)) && (SC_UNSUPP(X) || SC_SEQ_BAD(X))) ==> (FAILED_ANY && ((SC_UNSUPP(X) && g_close_code == WS_ST_UNSUPP) || (SC_SEQ_BAD(X) && g_close_code == WS_ST_PROTO)))) \
 /* acceptable data frame: handed to reassembly at the END of the queue, exactly once, with exactly the decoded length */ \
 __CPROVER_ensures(((G) && SC_DATA_OK(X, FINB, LEN)) ==> (g_finish_calls == OLD(g_finish_calls) + 1 && g_fin_rxq.n == OLD(g_rxq.n) + 1 && g_fin_rxq.item[OLD(g_rxq.n) % WSF_K] == OF && (OLD(g_rxq.n) < 1 || g_fin_rxq.item[0] == OLD(g_rxq.item[0])) && (OLD(g_rxq.n) < 2 || g_fin_rxq.item[1] == OLD(g_rxq.item[1])))) \
-__CPROVER_ensures(((G) && SC_DATA_OK(X, FINB, LEN)) ==> (g_fin_flen == (LEN) && g_fin_inmsg == !(FINB))) \
+/* (a message is in progress afterwards iff this was not its final frame) */ \
+__CPROVER_ensures(((G) && SC_DATA_OK(X, FINB, LEN)) ==> (g_fin_flen == (LEN) && (g_fin_inmsg ? 1 : 0) == ((FINB) ? 0 : 1))) \
 __CPROVER_ensures(((G) && SC_DATA_OK(X, FINB, LEN)) ==> (WS->rxframe != OF)) \
 __CPROVER_ensures(((G) && SC_DATA_OK(X, FINB, LEN)) ==> ((SC_QUIET || SC_OOM) && (SC_QUIET ==> g_ctl_calls == OLD(g_ctl_calls)))) \
 /* PING: answered by ONE PONG of the same length (5.5.3) unless we are closing; PONG: ignored; neither reaches the application */ \
@@ -222,7 +231,7 @@ __CPROVER_ensures(((G) && SC_IS(X, FINB, LEN, WS_OP_CLOSE)) ==> (OLD(WS->closed)
 #define WS ws
 #define OF frame
 /* the only other way to end up closing: the reassembly step ran out of memory */
-#define SC_OOM (g_close_calls == OLD(g_close_calls) + 1 && g_close_code == WS_ST_INTERNAL && g_finish_calls == OLD(g_finish_calls) + 1)
+#define SC_OOM (g_close_calls == OLD(g_close_calls) + 1 && g_close_code == WS_ST_INTERNAL && g_finish_calls == OLD(g_finish_calls) + 1 && WS->closed)
 #define FC_X ((unsigned) OLD(frame->op))
 #define FC_FIN OLD(frame->final)
 #define FC_LEN OLD(frame->len)
@@ -230,20 +239,20 @@ static void ws_read_frame_cb(nni_ws *ws, ws_frame *frame)
 __CPROVER_requires(__CPROVER_is_fresh(ws, sizeof(*ws)) && WSF_LISTS_PRE(ws) && WSF_Q_OK(g_recvq) && ws->ready)
 __CPROVER_requires(__CPROVER_is_fresh(frame, sizeof(ws_frame)) && __CPROVER_pointer_in_range_dfcc(frame, ws->rxframe, frame) && g_the_frame == frame)
 /* bound of the frame queue model: at most WSF_K-1 frames are queued before this one */
-__CPROVER_requires(g_rxq.n < WSF_K && g_txq.n < WSF_K && WSF_TXQ_PRE && WSF_RXQ_PRE)
+__CPROVER_requires(g_rxq.n < WSF_K && WSF_TXQ_OK && WSF_RXQ_PRE)
 __CPROVER_requires(g_eq == 0 || g_eq == WSF_EQ_RX)
 /* the decoded opcode field holds bits 0-6 of the first header byte */
 __CPROVER_requires(frame->aio == NULL && (unsigned) frame->op <= 0x7fu && WSF_PAYLOAD_PRE(frame))
 /* ghost equation: g_hb is the (unmasked) payload byte at index g_hk == g_k */
 __CPROVER_requires((g_eq == WSF_EQ_RX && g_k < frame->len) ==> (g_hk == g_k && g_hb == frame->buf[g_k]))
 __CPROVER_assigns(ws->closed, ws->wclose, ws->peer_closed, ws->inmsg, ws->rxframe, ws->txframe, WSF_IOV_OF(ws->txaio),
-	g_recvq, g_rxq, g_txq, WSF_FIN_GHOSTS, WSF_CLOSE_GHOSTS, WSF_CTL_GHOSTS, WSF_WR_GHOSTS, g_io_http, WSF_ALLOC_GHOSTS, WSF_RAND_GHOSTS,
-	g_aio_close_calls, g_aio_reset_calls, g_start_calls, WSF_SNAP_GHOSTS, WSF_MSG_GHOSTS;
+	g_recvq, g_rxq, WSF_TX_GHOSTS, WSF_FIN_GHOSTS, WSF_CLOSE_GHOSTS, WSF_ALLOC_GHOSTS, WSF_RAND_GHOSTS, WSF_SNAP_GHOSTS, WSF_MSG_GHOSTS;
 	g_rxq.n >= 1: g_rxq.item[0]->len, g_rxq.item[0]->buf;
 	g_rxq.n >= 2: g_rxq.item[1]->len, g_rxq.item[1]->buf;
 	frame->len, frame->buf)
 __CPROVER_frees(frame, frame->adata)
 WSF_STAGE_C_ENSURES(1, FC_X, FC_FIN, FC_LEN)
+__CPROVER_ensures(WSF_TXQ_OK && WSF_Q_OK(g_recvq) && g_rxq.n <= WSF_K)
 /* the payload is handed over as it is */
 __CPROVER_ensures((SC_DATA_OK(FC_X, FC_FIN, FC_LEN) && g_eq == WSF_EQ_RX && g_k < FC_LEN) ==> (g_fin_fbuf == OLD(frame->buf) && g_fin_fb == g_hb))
 /* where the next read goes: nowhere if the connection failed or the peer closed (the frame stays put), else the frame has left the read slot */
@@ -284,7 +293,7 @@ __CPROVER_ensures((SC_DATA_OK(FC_X, FC_FIN, FC_LEN) || SC_IS(FC_X, FC_FIN, FC_LE
 #define O_RES OLD(WS->rxaio.a_result)
 #define RD_OK (O_RES == 0)
 #define STILL_OPEN (g_close_calls == OLD(g_close_calls) && g_finish_calls == OLD(g_finish_calls) && RXQ_SAME && g_ctl_calls == OLD(g_ctl_calls) && WS->rxframe == OF && WS->closed == OLD(WS->closed) && WS->inmsg == OLD(WS->inmsg))
-#define ARMED(bufp, n) (WS->rxaio.a_nio == 1 && WS->rxaio.a_iov[0].iov_buf == (void *) (bufp) && WS->rxaio.a_iov[0].iov_len == (n) && g_rd_calls == OLD(g_rd_calls) + 1 && g_rd_aio == &WS->rxaio && g_io_http == WS->http)
+#define ARMED(bufp, n) (WS->rxaio.a_nio == 1 && WS->rxaio.a_iov[0].iov_buf == (void *) (bufp) && WS->rxaio.a_iov[0].iov_len == (n) && g_rd_calls == OLD(g_rd_calls) + 1 && g_rd_aio == &WS->rxaio && g_rd_http == WS->http)
 #define HEAD_KEPT (OF->head[0] == HB(0) && OF->head[1] == HB(1) && OF->head[2] == HB(2) && OF->head[3] == HB(3) && OF->head[4] == HB(4) && OF->head[5] == HB(5) && OF->head[6] == HB(6) && OF->head[7] == HB(7) && OF->head[8] == HB(8) && OF->head[9] == HB(9) && OF->head[10] == HB(10) && OF->head[11] == HB(11) && OF->head[12] == HB(12) && OF->head[13] == HB(13))
 
 /* guards: which stages this invocation runs through */
@@ -312,7 +321,7 @@ static void ws_read_cb(void *arg)
 __CPROVER_requires(__CPROVER_is_fresh(arg, sizeof(nni_ws)) && WSF_LISTS_PRE(WS) && VP_NO_LOCK_HELD && WS->ready && WSF_LIMITS(WS))
 __CPROVER_requires(WSF_Q_OK(g_recvq))
 /* bound of the frame queue model: at most WSF_K-1 frames are queued before this one */
-__CPROVER_requires(g_rxq.n < WSF_K && g_txq.n < WSF_K && WSF_TXQ_PRE && WSF_RXQ_PRE)
+__CPROVER_requires(g_rxq.n < WSF_K && WSF_TXQ_OK && WSF_RXQ_PRE)
 /* invariant of the reassembly queue in message mode: what is queued was admitted under recvmax; g_u64 names the sum */
 __CPROVER_requires((!WS->isstream && WS->recvmax > 0) ==> (RXQ_L0 <= WS->recvmax && RXQ_L1 <= WS->recvmax && RXQ_SUM <= WS->recvmax))
 __CPROVER_requires(g_u64 == RXQ_SUM)
@@ -335,8 +344,7 @@ __CPROVER_requires((g_eq == WSF_EQ_RX && g_k < FR->len) ==> (g_b == FR->buf[g_k]
 #endif
 __CPROVER_assigns(VP_SYNC_GHOSTS, WS->closed, WS->wclose, WS->peer_closed, WS->inmsg, WS->rxframe, WS->txframe,
 	WSF_IOV_OF(WS->rxaio), WSF_IOV_OF(WS->txaio),
-	g_recvq, g_rxq, g_txq, WSF_FIN_GHOSTS, WSF_CLOSE_GHOSTS, WSF_CTL_GHOSTS, WSF_RD_GHOSTS, WSF_WR_GHOSTS, g_io_http, WSF_ALLOC_GHOSTS, WSF_RAND_GHOSTS,
-	g_aio_close_calls, g_aio_reset_calls, g_start_calls, WSF_SNAP_GHOSTS, WSF_MSG_GHOSTS;
+	g_recvq, g_rxq, WSF_TX_GHOSTS, WSF_FIN_GHOSTS, WSF_CLOSE_GHOSTS, WSF_RD_GHOSTS, WSF_ALLOC_GHOSTS, WSF_RAND_GHOSTS, WSF_SNAP_GHOSTS, WSF_MSG_GHOSTS;
 	g_rxq.n >= 1: g_rxq.item[0]->len, g_rxq.item[0]->buf;
 	g_rxq.n >= 2: g_rxq.item[1]->len, g_rxq.item[1]->buf
 #if WSF_CASE != WSF_NONE
@@ -378,8 +386,10 @@ __CPROVER_ensures((G_B && B_OK && PLEN > 0 && g_close_calls == OLD(g_close_calls
 /* internal error only when memory ran out */
 __CPROVER_ensures((G_B && B_OK && PLEN > 0 && g_close_calls != OLD(g_close_calls) && !C_BAD) ==> (PLEN >= 126 && g_close_code == WS_ST_INTERNAL))
 #endif
+#if WSF_CASE != WSF_NONE
 /* --- stage C: the frame is complete --- */
 WSF_STAGE_C_ENSURES(G_C, C_X, WS_FIN(HB), PLEN)
+#endif
 #if WSF_CASE == WSF_DATA
 /* the payload handed over is the payload received, unmasked (5.3) */
 __CPROVER_ensures((G_C && SC_DATA_OK(C_X, WS_FIN(HB), PLEN) && g_eq == WSF_EQ_RX && g_k < PLEN) ==> (g_fin_fbuf == OLD(WS->rxframe->buf) && g_fin_fb == (uint8_t) (C_WAS_MASKED ? (g_b ^ OLD(WS->rxframe->mask[g_k & 3])) : g_b)))
